@@ -94,7 +94,8 @@ def make_player(scn, seat, spec, role, overrides=None, vanish=None, team=None, v
                               spec['seed'], addr, version=version, overrides=overrides,
                               name=role, on_verdict=on_verdict, vanish=vanish,
                               pre_connect=pre_connect, post_connect=post_connect,
-                              linger_gate=linger_gate, impatient=impatient)
+                              linger_gate=linger_gate, impatient=impatient,
+                              half_close=bool(spec.get('half_close')))
     pk = {'bundled': 'script'}.get(kind, kind)
     return BundledPlayer(seat, team, scn['script'], pk, addr, name=role, on_verdict=on_verdict,
                          pre_connect=pre_connect, post_connect=post_connect, version=version)
